@@ -3,7 +3,7 @@
   `Proofs/ComposeSyncerPrune.lean` are exactly what the pruner model of C35 produces.
 
   `PruneSafe` (the admissibility condition of a removal in the composed syncer/pruner runs) is
-  implied by the conclusion of `Lumina.Props.C35.batch_safe` for every height of every batch
+  implied by the conclusion of `Lumina.Props.C35.batch_safe_partial` for every height of every batch
   `get_next_prunable_batch` returns, when the pruner's view of the store (`PStore`: the three
   `BlockRanges`, header times) and the syncer model's view (`AbsStore`, time classes `oldS` / `oldP`)
   describe the same store and the same cutoffs.  The regime hypotheses of the convergence theorem
@@ -33,7 +33,7 @@ theorem pruner_batch_height_is_prune_safe (limit : Nat) (ps : PStore) (w : Worke
     (hres : getNextPrunableBatch limit ps w sc pc refresh grant = .ok (batch, w', msgs))
     (e : Env) (a : AbsStore) (hsame : SameStore ps sc pc e a) (h : Nat) (hmem : mem batch h) :
     PruneSafe e a h := by
-  obtain ⟨k1, k2, k3, _⟩ := Lumina.Props.C35.batch_safe limit ps w sc pc refresh grant hs hm hc batch w' msgs
+  obtain ⟨k1, k2, k3, _⟩ := Lumina.Props.C35.batch_safe_partial limit ps w sc pc refresh grant hs hm hc batch w' msgs
     hres h hmem
   have hsy : ∀ x, (mem ps.stored x ∨ mem ps.pruned x) → syncedB a x = true := by
     intro x hx
